@@ -64,20 +64,21 @@ def run(chk):
 
     in_scope = []
     for (rel, qual), fi in sorted(repo.funcs.items()):
-        if rel in SCOPE_FILES and fi.parent is None and fi.cls is None:
-            in_scope.append(fi)
-        elif rel == "circuit.py" and fi.cls in ("Circuit", "BlackBox") and fi.parent is None:
-            in_scope.append(fi)
+        if rel in SCOPE_FILES and fi.parent is None and fi.cls is None and (rel, qual) not in repo.inherited:
+            in_scope.append((fi, None))
+        elif rel == "circuit.py" and qual.count(".") == 1 and qual.split(".")[0] in ("Circuit", "BlackBox") and fi.parent is None:
+            # (a method Circuit inherits from a mixin of the package - possibly in a module of its own - is a method of Circuit)
+            in_scope.append((fi, qual.split(".")[0]))
 
     n_funcs = 0
     n_with_tracked = 0
     derived_mutators = set()
-    for fi in in_scope:
+    for fi, owner_cls in in_scope:
         key = (fi.file, fi.qual)
         s = an.summ[key]
         tr = tracked_params(an, key)
-        is_mutator = fi.cls == "Circuit" and (fi.node.name in CIRCUIT_MUTATORS or (fi.node.name.startswith("_") and not fi.node.name.startswith("__") and _owners(repo, fi.node.name) <= CIRCUIT_MUTATORS))
-        is_bb_init = fi.cls == "BlackBox" and fi.node.name == "__init__"
+        is_mutator = owner_cls == "Circuit" and (fi.node.name in CIRCUIT_MUTATORS or (fi.node.name.startswith("_") and not fi.node.name.startswith("__") and _owners(repo, fi.node.name) <= CIRCUIT_MUTATORS))
+        is_bb_init = owner_cls == "BlackBox" and fi.node.name == "__init__"
         n_funcs += 1
         if tr:
             n_with_tracked += 1
@@ -87,7 +88,7 @@ def run(chk):
                 continue
             raise AnalysisError(f"{fi.qual}: {u['why']}: `{u['text']}` - add the callee to the library table after reading it", fi.file, u["line"])
         # effects on self => derived mutator table
-        if fi.cls == "Circuit":
+        if owner_cls == "Circuit":
             if any(p == "self" and part in VIOLATING_PARTS for (p, part, how) in s.mut):
                 derived_mutators.add(fi.node.name)
         # purity
@@ -123,7 +124,7 @@ def run(chk):
             pk = an.param_kinds[key]
             aliases = sorted({(p, part) for (slot, p, part) in s.ret if not p.startswith("^") and p in tr and part in VIOLATING_PARTS
                               and not (pk.get(p) == "BlackBox" and part == "self")})
-            if fi.cls == "Circuit" and fi.node.name in ("__init__",):
+            if owner_cls == "Circuit" and fi.node.name in ("__init__",):
                 aliases = []
             if tr:
                 chk.ob("C19.freshness", f"{fi.file}::{fi.qual}::return", not aliases, file=fi.file, func=fi.qual, line=fi.node.lineno,
@@ -165,8 +166,14 @@ def run(chk):
                 if isinstance(n.func, _ast.Attribute) and n.func.attr == "copy":
                     copy_sites += 1
                 if d in ("exec", "eval", "globals", "locals", "vars", "__import__"):  # setattr / delattr are attribute stores in the effect analysis
+                    # (the namespace of a helper class of the package itself - `vars(_Encoder)` to collect its registered methods - holds
+                    # functions, not circuit state)
+                    if d == "vars" and len(n.args) == 1 and not n.keywords and repo.class_of_expr(rel, n.args[0]) not in (None, ("circuit.py", "Circuit"), ("circuit.py", "BlackBox")):
+                        continue
                     reflection.append((rel, n.lineno, d))
             if isinstance(n, _ast.Attribute) and n.attr == "__dict__":
+                if repo.class_of_expr(rel, n.value) not in (None, ("circuit.py", "Circuit"), ("circuit.py", "BlackBox")):
+                    continue
                 reflection.append((rel, n.lineno, "__dict__"))
     chk.ob("C19.no-reflection", "package::exec/eval/vars/__dict__", not reflection, fact={"sites": reflection}, expect="none (soundness assumption of the effect analysis)")
     chk.floor("Circuit(...) construction sites seen", ctor_sites, 10)
